@@ -543,6 +543,17 @@ impl Database {
                     loop {
                         let row_key = cursor.key()?;
                         let row_data = cursor.value()?;
+
+                        // A tombstone is not a row: a deleted row gets no entry in the new index.
+                        if row_data.len() >= crate::mvcc::RecordHeader::SIZE
+                            && crate::mvcc::RecordHeader::from_bytes(row_data).is_deleted()
+                        {
+                            if !cursor.advance()? {
+                                break;
+                            }
+                            continue;
+                        }
+
                         let user_data = crate::database::dml::mvcc_helpers::get_user_data(row_data);
 
                         let row_id = u64::from_be_bytes(
